@@ -4,11 +4,15 @@ import json, os
 HERE = os.path.dirname(os.path.abspath(__file__))
 
 NA = {
- "C14": "Blind rotation returns the table entry at the mod-switched index: index/drift/sign arithmetic and homomorphic noise.",
 }
 
 # id -> (level category, level text, design_ref, level_note, technique, has_thorough)
 CLAIMS = {
+ "C14": ("other",
+         "Only the skip guards of the CGGI accumulator update are decided (ROT-1): on the closure chain of the execute variants, an update acc[i] += X^e * u[j] - u[i] whose execution depends on a comparison of (an expression of) the exponent with zero has j == i symbolically - for the extended accumulator the update between two different interleaved polynomials does not vanish for X^e = 1 (DESIGN section 9 row 65, a wrong rotation for mask coefficients in +-{1..ext-1}). The modulus switch of the LWE sample (a known arithmetic defect for small LWE radices is listed in DESIGN section 9b), the table encoding, the rotation arithmetic and the noise are not decided.",
+         "DESIGN.md §8 (C14), §9 row 65, §9b",
+         "Trusted: svp_apply_dft_to_dft(x_pow_a[e], u) multiplies u by X^e; x_pow_a[0] = 1. Thin, single-clause claim.",
+         "symbolic operand identity along the closure chain + dominance of the exponent guard", True),
  "C01": ("other",
          "Only the placement and truncation of the fresh error and the radix agreement of the plaintext are decided. NoiseInfos::target_limb_and_scale puts an error of precision k on the limb and with the scale 2^s for which (limb + 1) * base2k - s == k and 0 <= s < base2k, for every k >= 1 and radix (ERR-1, piecewise-linear identity over the expressions extracted from MIR); every Gaussian sampling shape function asks for that placement with its own radix, writes the limb it names and scales sigma and bound with the factor it returned (ERR-2, RND-9); every scalar sampler stores only samples that passed the rejection test against its own bound, or clamps to it (ERR-3); every encryption that takes a GLWE / LWE plaintext compares the plaintext's radix with the ciphertext's before moving limbs (POS-1, DESIGN section 9 row 60). With C06's call discipline (noise injected once on every path) these are necessary conditions of 'error at most the configured bound at the encryption precision, message at its own position'. The magnitude of the decryption error (1-norms of secrets, rounding), the normalisation arithmetic and the mask products are not decided.",
          "DESIGN.md §8 (C01), §9 row 60",
